@@ -268,6 +268,7 @@ func C10(c *Ctx) {
 	c.R.Rule("C10-R1", "E1+E7", "runtime is fresh per execution; no field/global can hold a runtime", 3)
 	c.R.Rule("C10-R2", "E1", "caller's bindings (any depth) and props map never reachable from values given to the runtime", 1)
 	c.R.Rule("C10-R3", "E1", "Exec writes nothing shared (receiver, parameters, globals)", 5)
+	c.shareRule("C06", "C06-R4", "C10-R5", "the wrapper every action and guard runs through keeps nothing between executions (nothing of one execution is visible to a later or concurrent one)")
 	c.R.Rule("C10-R4", "E5", "a host makes the step properties for each walk", 1)
 	c10HostProps(c)
 	a, exec := c.ecmaAnalysis()
